@@ -19,10 +19,6 @@ theorem quiescent_classify {k s} (hi : Inv k s) (hq : Quiescent s) (f : Fid) :
   | tlfParked r d =>
       exact absurd (Step.tlfTimeout s f (max s.now d) r d (hi.tlf_timed f r d hp) hp (Nat.le_max_right _ _)
         (Nat.le_max_left _ _)) (hq _ _)
-  | tlfWoken =>
-      cases hx : s.fixed with
-      | false => exact absurd (Step.tlfWokenAcq s f (hi.tlfw_timed f hp) hx hp) (hq _ _)
-      | true => exact absurd hp (hi.fixed_no_woken hx f)
   | tlfLocking r =>
       cases ho : s.occupied with
       | false => exact absurd (Step.tlfRecheckAcq s f r (hi.tlfl_timed f r hp) hp ho) (hq _ _)
@@ -51,10 +47,6 @@ theorem quiescent_parked_held {k s} (hi : Inv k s) (hq : Quiescent s) (f : Fid) 
           have hw := hi.transit_pc g (by rw [htr]; simp)
           cases hg : s.pc g with
           | locking c => exact (hq _ _) (Step.lockAcq s g c hg ho)
-          | tlfWoken =>
-              cases hx : s.fixed with
-              | false => exact (hq _ _) (Step.tlfWokenAcq s g (hi.tlfw_timed g hg) hx hg)
-              | true => exact (hi.fixed_no_woken hx g) hg
           | tlfLocking r => exact (hq _ _) (Step.tlfRecheckAcq s g r (hi.tlfl_timed g r hg) hg ho)
           | _ => rw [hg] at hw; simp [Pc.woken] at hw
 
